@@ -184,6 +184,7 @@ def hygiene(ctx):
     no_shared_default_writes(ctx, "G", files, allow=set(REGISTRIES))
     yielded_then_mutated(ctx, "G", files)
     memo_keys(ctx, "G", files)
+    child_status(ctx, "G", files)
 
 
 def publication(ctx, rule, modname, qual, live, what):
@@ -273,4 +274,20 @@ def memo_keys(ctx, rule, files):
                      f"{fi.qual}: results are remembered in `{cont}` under `{key}`, but the remembered call receives `{arg}` itself; `{proj}` identifies less than `{arg}`, "
                      f"so a different `{arg}` with the same `{proj}` is served the first one's result", node=node)
     ctx.ob(rule, "memo keys", f"{n} functions in {len(files)} file(s): no memo key is a projection of a memoised argument", file=sorted(files)[0] if files else "")
+    return n
+
+
+def child_status(ctx, rule, files):
+    """no child process is started whose exit status is never looked at"""
+    from . import procstatus
+    files = set(files)
+    n = 0
+    for fi in _funcs_of(ctx.program, files):
+        if ".<locals>." in fi.qual:
+            continue
+        n += 1
+        for call, what in procstatus.findings(fi.node):
+            ctx.fail(rule, fi, f"child-status-dropped:{fi.name}",
+                     f"{fi.qual}: {what} (line {call.lineno}): a failing or killed child is indistinguishable from a successful one, so incomplete output is accepted", node=call)
+    ctx.ob(rule, "child processes", f"{n} functions in {len(files)} file(s): every child process started has its exit status checked", file=sorted(files)[0] if files else "")
     return n
